@@ -1,7 +1,7 @@
 PROP = {
     "id": "C08",
     "theorem_modules": ["Verif.Properties.C08"],
-    "min_theorems": 17,
+    "min_theorems": 19,
     "required_theorems": [
         "Verif.Properties.C08.rules_unchanged",
         "Verif.Properties.C08.refl",
@@ -19,6 +19,7 @@ PROP = {
         "Verif.Properties.C08.trans_struct_partial",
         "Verif.Properties.C08.trans_kindstable_partial",
         "Verif.Properties.C08.trans_witness_contravariant",
+        "Verif.Properties.C08.trans_checked_partial",
     ],
     "gen": [["vtool", "gen-rules"]],
     "tool_files": ["tool_rules.go"],
